@@ -40,10 +40,12 @@ def run(ctx):
     allsc = g.tagged("REPLAY")
     rnd = random.Random(ctx.seed)
     ns = (1, 2, 3, 5) if thorough else (2, 3)
-    ns = ns + (600,)
+    ns = ns + (600, 40)
     base = [s for s in allsc if s["n"] in ns and s["threads"] == 1 and s["concurrent"] == "none" and not s["progress"] and not s["second"]]
     # every large-batch HMC class also under a second pool size
     base += [s for s in allsc if s["n"] == 600 and s["threads"] == 4 and not s["progress"] and not s["second"]]
+    # 40 chains of the generic runner under every pool size (rows must stay in chain order whatever the completion order)
+    base += [s for s in allsc if s["n"] == 40 and s["threads"] != 1 and not s["progress"] and not s["second"] and s["seed"] in ("42", "18446744073709551615")]
     # NUTS chains on the rayon pool + a non-pool thread doing autodiff with a matmul target can deadlock
     # (see the dedicated probe below); keep that combination out of the sampled scenarios
     hazard = lambda s: s["kind"] == "NUTS" and s["concurrent"] == "hmc" and not s["progress"]
